@@ -61,6 +61,18 @@ Check (eq_refl : live = fun x => negb (is_done (pc x)) && negb (is_notstarted (p
 Check (eq_refl : f18_progs = [[AUpdate]; [AUpdate]]).
 Check (eq_refl : f23_progs = [[AAlloc true]; [AAllocJit false]]).
 
+Check (C16_stop_terminates_spawning : forall progs sched h f,
+  let w := run cfg_fixed sched (init progs) in
+  is_stw (pc (th w h)) = true ->
+  fair (length progs) f ->
+  exists k, is_stw (pc (th (run_stream cfg_fixed f k w) h)) = false).
+Check (C16_stop_terminates_spawning_nonvacuous :
+  fair 3 rr3 /\
+  (let w := run cfg_fixed spawning_sched (init spawning_progs) in
+   pc (th w 0) = Stw SStopLock /\ reg (th w 1) = true /\ pc (th w 2) = NotStarted /\
+   is_stw (pc (th (run_stream cfg_fixed rr3 75 w) 0)) = false /\
+   (let w' := run_stream cfg_fixed rr3 120 w in pc (th w' 0) = Done /\ pc (th w' 1) = Done /\ pc (th w' 2) = Done))).
+Check (eq_refl : spawning_progs = [[ASpawn 1; AUpdate; ASpawn 2]; [ACompute; APrim; ACompute]; [APrim; ACompute]]).
 Print Assumptions C16_no_runtime_deadlock.
 Print Assumptions C16_no_runtime_deadlock_all_started.
 Print Assumptions C16_deadlock_refuted_global_update.
@@ -75,3 +87,5 @@ Print Assumptions C16_join_once.
 Print Assumptions C16_join_delivery_enabled.
 Print Assumptions C16_source_config_is_fixed.
 Print Assumptions C16_every_region_published.
+Print Assumptions C16_stop_terminates_spawning.
+Print Assumptions C16_stop_terminates_spawning_nonvacuous.
